@@ -118,11 +118,11 @@ example : printE (.binary T.REM (.binary T.REM eA eB) eC) = [tA, opTok T.REM, tB
 example : printE (.binary T.REM eA (.binary T.REM eB eC)) =
     [tA, opTok T.REM, opTok T.LPAREN, tB, opTok T.REM, tC, opTok T.RPAREN] := by decide
 /-- missing factors are reported: `d = ;`, `d = a % ;`, `d = * ;`, `d = ( ) ;`, `d = a | ;` -/
-example : ((parseFile [⟨T.IDENT, [100]⟩, opTok T.ASSIGN, semi]).map (·.errs.length)) = some 2 := by decide
+example : ((parseFile [⟨T.IDENT, [100]⟩, opTok T.ASSIGN, semi]).map (·.errs.length)) = some 1 := by decide
 example : ((parseFile [⟨T.IDENT, [100]⟩, opTok T.ASSIGN, tA, opTok T.REM, semi]).map (·.errs.length)) = some 2 := by decide
 example : ((parseFile [⟨T.IDENT, [100]⟩, opTok T.ASSIGN, opTok T.MUL, semi]).map (·.errs.length)) = some 1 := by decide
 example : ((parseFile [⟨T.IDENT, [100]⟩, opTok T.ASSIGN, opTok T.LPAREN, opTok T.RPAREN, semi]).map (·.errs.length)) = some 1 := by decide
 example : ((parseFile [⟨T.IDENT, [100]⟩, opTok T.ASSIGN, tA, opTok T.OR, semi]).map (·.errs.length)) = some 1 := by decide
-example : StopExpr [semi] := by simp +decide [StopExpr, StopTerm, semi]
+example : StopExpr [semi] := by simp +decide [StopExpr, StopTerm]
 
 end GopModel.Tpl
